@@ -6,12 +6,12 @@ V = os.path.dirname(os.path.dirname(os.path.abspath(__file__)))
 
 # id -> (category, engine, technique, level text, level note, design ref)
 CHECKS = {
-    "C13": ("exploration", "E2+E1",
+    "C13": ("exploration", "E2+E1+E4",
             "exhaustive enumeration of all 2^32 phases / all tie points for every M<=2^15 plus rapidcheck random (M,phase), oracle = 128-bit exact rounding relation",
             "Exhaustive over the listed moduli and over every tie/boundary phase of every M in [2,2^15] and every power of two up to 2^30; random generation only adds cases beyond that. For these pure functions that is a complete decision on the enumerated domain; outside it, sampled.",
             "Trusts the harness's 128-bit reference relation and that numeric-functions.cpp is compiled identically into all five back-end libraries (same object library).",
             "DESIGN.md §3 C13"),
-    "C11": ("exploration", "E1+E2",
+    "C11": ("exploration", "E1+E2+E4",
             "rapidcheck over (operation, N, a, p, polynomial contents) with exact uint64 reference; exhaustive a in [0,2N) and bilinear basis table for small N; asan build for the memory side",
             "Random + boundary-biased generation over 24 operations and laws with an exact integer oracle, exhaustive over the monomial exponent for N<=256 (quick) / 2048 (thorough) and over the basis-pair table for N<=16.",
             "Trusts the harness reference (schoolbook with 64-bit accumulation). Contents for N>16 are shape descriptors expanded from a generated seed rather than independently generated coefficients.",
@@ -21,8 +21,8 @@ CHECKS = {
             "The input domain is a single integer; every value in [-5,300] and the 32-bit extremes are tried on several builds/back-ends, so the decision is complete on that range and every field of both sets is compared with the documented table.",
             "Trusts spec/paramsets.json (transcribed from README/CGGI tables) and the average-case noise formulas for the margin clause.",
             "DESIGN.md §3 C19"),
-    "C12": ("exploration", "E2+E1",
-            "exhaustive sweep of all 2^32 coefficient values per gadget layout on AVX2 and scalar builds + rapidcheck over the layout grid with guard-page buffers; oracle = unique balanced-digit recomposition relation",
+    "C12": ("exploration", "E2+E1+E4",
+            "exhaustive sweep of all 2^32 coefficient values per gadget layout on AVX2 and scalar builds + rapidcheck over the layout grid with guard-page buffers + libFuzzer target on the scalar path; oracle = unique balanced-digit recomposition relation",
             "Exhaustive over all 32-bit values for the default layouts and a grid of others (incl. l*Bgbit=32, Bgbit=2); random/boundary generation for the remaining layouts, lane positions and the TLWE wrapper.",
             "N restricted to multiples of the vector width (the routine is only called with the ring degree). Out-of-bounds detection for the inline assembly rests on guard pages/canaries, which see page-crossing or slack writes only.",
             "DESIGN.md §3 C12"),
@@ -36,13 +36,13 @@ CHECKS = {
             "Every combination of operation, magnitude and structured shape is enumerated on every back-end and build; random seeds and accumulation lengths are generated. Errors are compared with the property's own bound.",
             "Ring degree 1024 only. Worst observed errors are reported so the distance to the bound is visible.",
             "DESIGN.md §3 C10"),
-    "C14": ("exploration", "E1+E2",
+    "C14": ("exploration", "E1+E2+E4",
             "rapidcheck over LWE/TLWE linear operations with exact integer phase oracle, guard-page mask buffers and forked cases; exhaustive n grid and exhaustive extraction index",
             "Generated operations, dimensions (every n in 1..40 and the listed large ones), scalars incl. INT32_MIN, keys and contents with an exact phase-linearity oracle; exhaustive over the extraction index for every power-of-two N<=1024 and k<=3.",
             "Guard pages detect out-of-bounds accesses of the inline assembly only when they leave the array into the slack or the adjacent page.",
             "DESIGN.md §3 C14"),
-    "C08": ("exploration", "E2+E1+E5",
-            "exhaustive sweep of all 2^32 mask values on a harness-built noise-free key-switching key + rapidcheck over layouts/dimensions/boundary masks with an exact phase identity (also on library-generated noisy keys: every row must encrypt its message h*s_i*base^-(j+1) within 9 alpha, then its measured error enters the identity) + z=6 moment tests over >=2e4 (quick) / >=1e5 (thorough) real-key samples",
+    "C08": ("exploration", "E2+E1+E5+E4",
+            "exhaustive sweep of all 2^32 mask values on a harness-built noise-free key-switching key + rapidcheck over layouts/dimensions/boundary masks with an exact phase identity (also on library-generated noisy keys: every row must encrypt its message h*s_i*base^-(j+1) within 9 alpha, then its measured error enters the identity) + libFuzzer target with explicit mask words on noise-free keys + z=6 moment tests over >=2e4 (quick) / >=1e5 (thorough) real-key samples",
             "Exhaustive over a mask coefficient for the default layout (quick) and ten layouts (thorough); generated layouts, dimension pairs (incl. 1 and non-multiples of 8) and boundary masks with an exact-identity oracle, so no tolerance is involved except in the summary statistics.",
             "Noise-free rows are written through the public structure by the harness. The unbiasedness clause is checked as the exact sum over the exhaustive sweep.",
             "DESIGN.md §3 C08"),
